@@ -26,7 +26,8 @@ ASSUMPTIONS = [
     'atomicity between yield points: a thread switch can only happen at poll/wait/lock/queue/sleep/kill/'
     'publish/advance; races inside those sections are out of reach',
     'in-memory transport with msgpack copies; get_version shim']
-NOT_REACHED = ['real signal delivery and real process groups', 'Flux and Dragon executors']
+NOT_REACHED = ['real signal delivery and real process groups (groups with a SIGINT-immune member are modelled)',
+               'the Flux instances and the Dragon runtime themselves (stand-ins); run-time limits of the Dragon executor']
 BUDGET = {'quick': 160, 'thorough': 1500}
 
 
